@@ -53,6 +53,7 @@ fn main() {
     let mode = args.get(1).map(|s| s.as_str()).unwrap_or("");
     match mode {
         "worker" => {
+            let _ = std::fs::remove_dir_all(runner::base_dir());
             install_fatal_hook();
             silence_panics();
             let check = arg(&args, "--check").unwrap();
@@ -87,6 +88,7 @@ fn main() {
             let _ = std::fs::remove_dir_all(runner::base_dir());
         }
         "one" => {
+            let _ = std::fs::remove_dir_all(runner::base_dir());
             install_fatal_hook();
             silence_panics();
             let mut s = String::new();
